@@ -141,6 +141,17 @@ Definition wstep (v : variant) (w : world) (o : sop) : res (world * list (list b
     if qmax rq1 - qlen rq1 <? k then Ok (mkwd (ww w) (mkdq rq1 (dq_st (wr_ w))), [], PSOk) else
     do rq2 <- (match qpush rq1 bytes with Ok q' => Ok q' | Err _ => Ok rq1 | Fault => Fault end);
     Ok (mkwd (ww w) (mkdq rq2 (dq_st (wr_ w))), [], PSOk)
+  | SOpen blk =>
+    (* mpt_queue_push without encoder (raw append: mpt_qpush, scratch += len) while no block is open
+       and the ring has room: the bytes become the open block of the encoder installed afterwards.
+       This is the only way the scratch bytes come to straddle the ring end (the state the
+       out-of-band branch of mpt_queue_push handles) *)
+    let e := ww w in
+    let k := length blk in
+    if (escr (eq_st e) =? 0) && (1 <=? k) && (k <=? qmax (eq_q e) - qlen (eq_q e)) then
+      do q' <- (match qpush (eq_q e) blk with Ok q' => Ok q' | Err _ => Ok (eq_q e) | Fault => Fault end);
+      Ok (mkwd (mkeq q' (mke (ectx (eq_st e)) (edone (eq_st e)) k)) (wr_ w), [], PSOk)
+    else Ok (w, [], PSOk)
   end.
 
 Fixpoint wrun (v : variant) (w : world) (ops : list sop) : list (option sobs) :=
